@@ -151,6 +151,30 @@ theorem C09_always_eventually (evs : List Ev)
     rw [this]
     exact hpoll _ rfl rfl hf hinc hrc hon
 
+/-- **The completion test is never early, wherever it is made.**
+    `poll_requests_completion(cx).is_ready()` — empty the request-end channel into
+    `ongoing_streams`, then "is `ongoing_streams` empty?" — also guards the `Ok(None)` that
+    `accept` gives right after refusing a stream during a *local* shutdown (that path is in
+    `H3.Goaway.acceptLoop`, whose event `complete id` is this model's channel receive; theorem
+    `C08_accept_none_only_when_drained`).  In every reachable state of this model a positive
+    test means that no handle of any request handed out is alive. -/
+theorem C09_completion_test_never_early (evs : List Ev)
+    (h : removeAll (run {} evs).ongoing (run {} evs).chan = []) :
+    noneAlive (trace {} evs) = true ∧ ∀ id, alive (trace {} evs) id = false := by
+  obtain ⟨hi, hr, _⟩ := history evs {} [] inv_init rel_init
+  simp only [List.nil_append] at hr
+  have h0 : owners (trace {} evs) = [] := by
+    rw [hr.owners_eq]
+    apply List.eq_nil_iff_forall_not_mem.mpr
+    intro id hid
+    have : id ∈ removeAll (run {} evs).ongoing (run {} evs).chan :=
+      mem_removeAll.mpr ⟨hi.live_sub id hid, fun hc => hi.chan_dead id hc hid⟩
+    rw [h] at this
+    cases this
+  refine ⟨by simp [noneAlive, h0], ?_⟩
+  intro id
+  simp [alive, h0]
+
 /-- A recorded connection error does not leave `accept` hanging either: an outstanding call has
     been woken and its poll reports the error. -/
 theorem C09_error_reported (evs : List Ev) (he : errorSeen (trace {} evs) = true)
@@ -198,5 +222,11 @@ example : let evs := [Ev.arrive 0, .callAccept, .poll, .callAccept, .poll, .goaw
 -- no GOAWAY: accept keeps waiting although nothing is alive
 example : shows [.arrive 0, .callAccept, .poll, .dropHandle 0, .callAccept, .poll] =
     [[], [], [.handedOut 0], [], [], [.acceptPending]] := by decide
+-- `C09_completion_test_never_early`: the test is positive after the last handle went (its notification waits in the
+-- channel) and negative while one half of a split request is alive
+example : let s := run {} [.arrive 0, .callAccept, .poll, .clone 0, .dropHandle 0, .dropHandle 0]
+    removeAll s.ongoing s.chan = [] ∧ s.ongoing = [0] := by decide
+example : let s := run {} [.arrive 0, .callAccept, .poll, .clone 0, .dropHandle 0]
+    removeAll s.ongoing s.chan = [0] := by decide
 
 end H3.Props.C09
